@@ -7,6 +7,7 @@ import (
 	"path/filepath"
 
 	"github.com/sourcegraph/zoekt"
+	"github.com/sourcegraph/zoekt/internal/verifhook"
 )
 
 var mockRepos []*zoekt.Repository
@@ -45,6 +46,7 @@ func setTombstone(shardPath string, repoID uint32, tombstone bool) error {
 		return err
 	}
 
+	verifhook.FS("rename-meta", tempPath, finalPath)
 	err = os.Rename(tempPath, finalPath)
 	if err != nil {
 		os.Remove(tempPath)
@@ -68,6 +70,7 @@ func JsonMarshalRepoMetaTemp(shardPath string, repositoryMetadata any) (tempPath
 		return "", "", fmt.Errorf("marshalling json: %w", err)
 	}
 
+	verifhook.FS("create-meta", finalPath)
 	f, err := os.CreateTemp(filepath.Dir(finalPath), filepath.Base(finalPath)+".*.tmp")
 	if err != nil {
 		return "", "", fmt.Errorf("writing temporary file: %s", err)
@@ -85,6 +88,7 @@ func JsonMarshalRepoMetaTemp(shardPath string, repositoryMetadata any) (tempPath
 		return "", "", fmt.Errorf("chmoding temporary file: %s", err)
 	}
 
+	verifhook.FS("write-meta", f.Name())
 	_, err = f.Write(b)
 	if err != nil {
 		return "", "", fmt.Errorf("writing json to temporary file: %s", err)
